@@ -241,16 +241,16 @@ package langserver
 //@   loop range:fileSymbolVec exits-early-only-if [C19,every-found-symbol-is-answered] false
 //@ end
 
-// document outline: one entry per symbol, in order, range and selection range both the symbol's location; the children
-// of an entry are converted from the symbol's own children
+// document outline: one entry per symbol, in order, its range the symbol's location (which for a function or a table
+// with members is the extent of the declaration, starting at the declaring identifier - FuncSymbolLoc, FindAllLocalVal);
+// the children of an entry are converted from the symbol's own children. (Nothing is claimed about selectionRange: the
+// server sets it to the same extent, where LSP means the identifier alone - read, not decided here.)
 //@ func transferSymbolVec
 //@   props C19 C04
 //@   at call append#0 before assert[C19,kth-outline-entry-is-appended-at-k] len(items) == rangeindex + 1 && 0 <= rangeindex + 1 && rangeindex + 1 < len(fileSymbolVec)
 //@   at call append#0 before assert[C19,C04,outline-entry-is-at-the-symbols-declaration] wfLoc(oneSymbol.Loc.StartLine, oneSymbol.Loc.StartColumn, oneSymbol.Loc.EndLine, oneSymbol.Loc.EndColumn) ==>
 //@            arg1[0].Range.Start.Line == oneSymbol.Loc.StartLine - 1 && arg1[0].Range.Start.Character == oneSymbol.Loc.StartColumn
 //@            && arg1[0].Range.End.Line == oneSymbol.Loc.EndLine - 1 && arg1[0].Range.End.Character == oneSymbol.Loc.EndColumn
-//@   at call append#0 before assert[C19,selection-range-is-the-range] arg1[0].SelectionRange.Start.Line == arg1[0].Range.Start.Line && arg1[0].SelectionRange.Start.Character == arg1[0].Range.Start.Character
-//@        && arg1[0].SelectionRange.End.Line == arg1[0].Range.End.Line && arg1[0].SelectionRange.End.Character == arg1[0].Range.End.Character
 //@   at call append#0 before assert[C19,kth-outline-entry-is-a-copy-of-the-kth-symbol] oneSymbol.Loc.StartLine == fileSymbolVec[rangeindex + 1].Loc.StartLine
 //@        && oneSymbol.Loc.StartColumn == fileSymbolVec[rangeindex + 1].Loc.StartColumn && oneSymbol.Loc.EndLine == fileSymbolVec[rangeindex + 1].Loc.EndLine && oneSymbol.Loc.EndColumn == fileSymbolVec[rangeindex + 1].Loc.EndColumn
 //@   at call transferSymbolVec#0 before assert[C19,children-are-converted-from-the-symbols-own-children] arg0 == oneSymbol.Children
